@@ -523,6 +523,63 @@ func checkLowRes(r *fw.R, dpmm float64, gx, gy int, stroke bool) {
 	r.Outcome("lowres-ok")
 }
 
+// strongly magnifying views: only the tip of a wedge is visible, its other vertices lie up to
+// 1e5 pixels outside the image (well inside the 26.6 fixed-point range); the edges that cross
+// the image must keep their slope.
+func checkMagnified(r *fw.R, dir int, scale float64) {
+	const MW, MH, dpmm = 20.0, 20.0, 10.0
+	// wedge with its tip at (0.02,0.02) in path coordinates, opening towards +x, rotated by dir quarter turns
+	base := pts(0.02, 0.02, 20, 6.02, 20, -5.98)
+	rot := func(p oracle.Pt) oracle.Pt {
+		q := oracle.Pt{X: p.X - 0.02, Y: p.Y - 0.02}
+		for k := 0; k < dir; k++ {
+			q = oracle.Pt{X: -q.Y, Y: q.X}
+		}
+		return oracle.Pt{X: q.X + 0.02, Y: q.Y + 0.02}
+	}
+	var c []oracle.Pt
+	for _, p := range base {
+		c = append(c, rot(p))
+	}
+	d := oracle.ClosedData(c)
+	m := canvas.Identity.Scale(scale, scale)
+	style := canvas.DefaultStyle
+	style.Fill = canvas.Paint{Color: color.RGBA{200, 30, 20, 255}}
+	ras := rasterizer.New(MW, MH, canvas.DPMM(dpmm), canvas.LinearColorSpace{})
+	ras.RenderPath(cv.Path(d), style, m)
+	ras.Close()
+	img := ras.Image.(*image.RGBA)
+	region := transformPolys(oracle.DenseData(d, 1), m)
+	px := 1 / dpmm
+	nIn, nOut := 0, 0
+	for j := 0; j < img.Bounds().Dy(); j++ {
+		for i := 0; i < img.Bounds().Dx(); i++ {
+			q := oracle.Pt{X: (float64(i) + 0.5) / dpmm, Y: MH - (float64(j)+0.5)/dpmm}
+			if oracle.Dist(region, q, true) <= px*1.1+1e-3 {
+				continue
+			}
+			got := img.RGBAAt(i, j)
+			if oracle.Winding(region, q) != 0 {
+				nIn++
+				if !(near(got.R, 200, 4) && near(got.G, 30, 4) && near(got.B, 20, 4) && near(got.A, 255, 4)) {
+					r.Violate("magnified-unpainted-inside", fmt.Sprintf("pixel (%d,%d) centre (%.3f,%.3f) mm is inside the wedge but has colour %v%s", i, j, q.X, q.Y, got, borderTag(beyondTag(region), i, j, img.Bounds().Dx(), img.Bounds().Dy())))
+					return
+				}
+			} else {
+				nOut++
+				if got.R > 4 || got.G > 4 || got.B > 4 || got.A > 4 {
+					r.Violate("magnified-paints-outside", fmt.Sprintf("pixel (%d,%d) centre (%.3f,%.3f) mm is outside the wedge but has colour %v%s", i, j, q.X, q.Y, got, borderTag(beyondTag(region), i, j, img.Bounds().Dx(), img.Bounds().Dy())))
+					return
+				}
+			}
+		}
+	}
+	if nIn > 0 && nOut > 0 {
+		r.NontrivialIdx()
+	}
+	r.Outcome("magnified-ok")
+}
+
 func families(tier string) []fw.Family {
 	nres := 2
 	if tier == "thorough" {
@@ -541,7 +598,18 @@ func families(tier string) []fw.Family {
 	radFS := []int{len(shapes), 2, nres, len(fsWidths), len(fsViews)}
 	lowRes := []float64{0.25, 0.5, 0.75}
 	radL := []int{len(lowRes), 3, 3, 2}
+	magScales := []float64{20, 100, 500}
+	radM := []int{4, len(magScales)}
 	return []fw.Family{
+		{Name: "magnifying views: wedge tip on a 20x20 mm canvas at 10 px/mm x 4 directions x Scale {20,100,500}", N: oracle.Prod(radM...),
+			Check: func(i int64, r *fw.R) {
+				g := oracle.Digits(i, radM...)
+				checkMagnified(r, g[0], magScales[g[1]])
+			},
+			Desc: func(i int64) string {
+				g := oracle.Digits(i, radM...)
+				return fmt.Sprintf("fill of the wedge M0.02 0.02L20 6.02L20 -5.98z turned by %d quarter turns about its tip under Scale(%g,%g)", g[0], magScales[g[1]], magScales[g[1]])
+			}},
 		{Name: "low resolution: 100x100 mm canvas at {0.25,0.5,0.75} px/mm x 3x3 positions x {fill, stroke}", N: oracle.Prod(radL...),
 			Check: func(i int64, r *fw.R) {
 				g := oracle.Digits(i, radL...)
